@@ -246,6 +246,10 @@ func (e *EventSubscription) enqueueEvent(subj string, payload []byte) {
 		switch event {
 		case "query":
 			e.handleQueryEvent(subj, payload)
+		case "reaccess":
+			// A reaccess event has no payload and affects the access to the
+			// resource no matter the query.
+			e.handleReaccessEvent()
 		default:
 
 			// Validate we have a base resource,
@@ -263,6 +267,16 @@ func (e *EventSubscription) enqueueEvent(subj string, payload []byte) {
 			e.base.handleEvent(&ResourceEvent{Event: event, Payload: ev})
 		}
 	})
+}
+
+func (e *EventSubscription) handleReaccessEvent() {
+	if e.base != nil && e.base.query == "" {
+		e.base.handleEvent(&ResourceEvent{Event: "reaccess"})
+	}
+
+	for _, rs := range e.queries {
+		rs.handleEvent(&ResourceEvent{Event: "reaccess"})
+	}
 }
 
 func (e *EventSubscription) handleQueryEvent(subj string, payload []byte) {
